@@ -22,7 +22,12 @@ SPECIAL = {
     "roblox.lua": "print(game, workspace, script, Instance.new(\"Part\"), task.wait())\n",
 }
 CONFIGS = [("luau", 'std = "luau"\n'), ("lua51", 'std = "lua51"\n'), ("lua52", 'std = "lua52"\n'),
-           ("lua53", 'std = "lua53"\n')]
+           ("lua53", 'std = "lua53"\n'),
+           # one lint named twice, in both spellings, with different values (a leftover after a rename)
+           ("lua51-two-spellings", 'std = "lua51"\n[lints]\nunused_variable = "deny"\nunused-variable = "allow"\nshadowing = "allow"\n'
+                                   'Shadowing = "deny"\n[config]\nempty_if = { comments_count = true }\nempty-if = { comments_count = false }\n'),
+           ("lua52-two-spellings", 'std = "lua52"\n[lints]\nundefined-variable = "allow"\nundefined_variable = "warn"\ndivide-by-zero = "deny"\n'
+                                   'divide_by_zero = "allow"\n')]
 
 
 def fp(lines):
